@@ -736,7 +736,7 @@ func (ex *Exec) joinStr(open string, parts []Str, sep, close string) Str {
 func (ex *Exec) format(f Str, args Slice) Str {
 	fs, ok := f.Concrete()
 	if !ok {
-		panic(engineErr("symbolic format string"))
+		return ex.formatSym(f, args)
 	}
 	var bs []*Term
 	addS := func(s string) {
@@ -783,6 +783,48 @@ func (ex *Exec) format(f Str, args Slice) Str {
 		return Str{}
 	}
 	return mkStr(bs)
+}
+
+// formatSym handles a format string with symbolic bytes (e.g. peer data used as a format):
+// it forks on each byte being '%'. A verb without an operand renders as Go does
+// ("%!v(MISSING)", "%%" -> "%"); operands, if any, are consumed in order with %v semantics.
+func (ex *Exec) formatSym(f Str, args Slice) Str {
+	st := ex.st
+	bs := ex.strBytes(f)
+	var out []*Term
+	add := func(s string) {
+		for i := 0; i < len(s); i++ {
+			out = append(out, st.Const(8, uint64(s[i])))
+		}
+	}
+	ai := 0
+	for i := 0; i < len(bs); i++ {
+		if !ex.branch(st.Eq(bs[i], st.Const(8, '%'))) {
+			out = append(out, bs[i])
+			continue
+		}
+		i++
+		if i >= len(bs) {
+			add("%!(NOVERB)")
+			break
+		}
+		if ex.branch(st.Eq(bs[i], st.Const(8, '%'))) {
+			add("%")
+			continue
+		}
+		if ai < len(args.A) {
+			out = append(out, ex.strBytes(ex.argStr('v', args.A[ai]))...)
+			ai++
+			continue
+		}
+		add("%!")
+		out = append(out, bs[i])
+		add("(MISSING)")
+	}
+	if len(out) == 0 {
+		return Str{}
+	}
+	return mkStr(out)
 }
 
 func (ex *Exec) sprint(args Slice, ln bool) Str {
